@@ -125,7 +125,10 @@ TEXTS = {
                  'against an ADD_DEQUANTIZE producer); operand-level whole-run theorems of the performer cover untouched operands, '
                  'in-place quantization, disjoint insertions and insertions re-targeted onto an enclosing earlier one (last '
                  'instruction of a nested list). Partially overlapping consumer lists (not emitted by the generator) and the '
-                 'nestedness of generated lists are validated by correspondence + oracle, not proved. Axioms: none.'),
+                 'nestedness of generated lists: groups at any depths are nested or disjoint and every consumer-side '
+                 'instruction lists one group (theorems); the ORDER of the emitted list and the producer-side instructions '
+                 'are not proved -- instead the full hypothesis set of the last-instruction theorem is DECIDED in Coq '
+                 '(last_hypb, sound) on every generated list by correspondence I. Axioms: none.'),
     },
     'C04': {
         'level': ('Theorems on the plan model with parameters as provenance terms (all models, configs, stores): every '
